@@ -88,7 +88,7 @@ Effect(e) ==
                           IF n \in DOMAIN dig THEN dig[n]
                           ELSE e.dig[CHOOSE i \in 1..Len(e.names) : e.names[i] = n]]
             /\ rows' = IF rows < 0 THEN e.rows ELSE rows
-            /\ cfg' = IF id = "Geom" THEN [cfg EXCEPT !.survivors = e.rows > 0] ELSE Going
+            /\ cfg' = IF id = "Geom" THEN [cfg EXCEPT !.survivors = e.rows > 0] ELSE IF id = "?" THEN cfg ELSE Going
             /\ disk' = [present |-> e.disk.present, cols |-> e.disk.cols, meta |-> Range(e.disk.meta)]
             /\ UNCHANGED <<metav, pending, phase>>
       [] e.kind = "meta" ->
@@ -99,7 +99,7 @@ Effect(e) ==
                           IF n \in Range(e.names) THEN e.dig[CHOOSE i \in 1..Len(e.names) : e.names[i] = n]
                           ELSE metav[n]]
             /\ disk' = [present |-> e.disk.present, cols |-> e.disk.cols, meta |-> Range(e.disk.meta)]
-            /\ cfg' = Going
+            /\ cfg' = IF id = "?" THEN cfg ELSE Going       \* a keyword no stage of the model writes says nothing about the stages
             /\ UNCHANGED <<dig, rows, pending, phase>>
       [] e.kind = "End" ->
             /\ phase' = (IF e.outcome = "return" THEN "returned" ELSE IF e.outcome = "raise" THEN "failed" ELSE "dead")
